@@ -143,6 +143,21 @@ func (t *UTransport) doDial(
 		t.mutex.Unlock()
 		return nil, t.closeErr
 	}
+	// [UQUIC] The Transport routes incoming packets by destination connection ID alone. With
+	// zero-length source connection IDs (InitialPacketSpec.SrcConnIDLength 0, every Chrome
+	// parrot) all connections dialed from it share the empty ID, so it can carry one of them at
+	// a time (upstream only allows zero-length IDs on single-use Transports for that reason).
+	// Registering this connection over one that is still open took the open connection's
+	// packets away without any error, and when that connection was closed later, its
+	// closed-connection entry (or the removal of its IDs) cut off this one as well. Refuse the
+	// dial while the ID belongs to an open connection; the entry a closed connection leaves
+	// behind for a few PTOs is taken over as before.
+	if h, ok := t.handlers[srcConnID]; ok {
+		if _, open := h.(*wrappedConn); open {
+			t.mutex.Unlock()
+			return nil, fmt.Errorf("uquic: source connection ID %q is in use by an open connection of this Transport (with zero-length source connection IDs a Transport carries one connection at a time): close that connection first, or dial through a new UTransport", srcConnID.Bytes())
+		}
+	}
 
 	var qlogTrace qlogwriter.Trace
 	if config.Tracer != nil {
